@@ -33,6 +33,9 @@ import (
 //	            the same input repeated directly and after another one
 //	concurrent  the same entry point running on 8 goroutines at once, each with its own inputs and
 //	            its own fresh receivers: only the library's process-wide state is shared
+//	amplify     well-formed compressed containers (gzip, zlib, DEFLATE, LZW, bzip2, zip) of high
+//	            expansion ratio in every position of an endorsement or quote, each call paired
+//	            with a control twin of the same length (dim_amp.go)
 
 type dimSpec struct {
 	family  string
@@ -54,6 +57,7 @@ type dimRun struct {
 	text  []textCase
 	efi   []efiCase
 	opt   []optCase
+	amp   []ampCase
 }
 
 func (d *dimRun) floor(name string) { d.flo[name] = true }
@@ -119,6 +123,10 @@ func (d *dimRun) dimSpecs() []dimSpec {
 			out = append(out, dimSpec{family: "concurrent", a: gi, v: k})
 		}
 	}
+	// appended in the fourth round (dim_amp.go); new families go below so that the numbers above stay
+	for k := range d.amp {
+		out = append(out, dimSpec{family: "amplify", a: k})
+	}
 	return out
 }
 
@@ -136,6 +144,7 @@ func (w *world) runDims(c *core.Ctx, specs []spec, ents []*entry, lim *asLimiter
 	d.text = w.mkTextCases(c.Thorough())
 	d.efi = w.mkEfiCases()
 	d.opt = w.mkOptCases(c.Thorough())
+	d.amp = mkAmpCases(c.Thorough())
 	dspecs := d.dimSpecs()
 	base := len(specs)
 	c.Max("appended-dimension-cases", int64(len(dspecs)))
@@ -180,6 +189,8 @@ func (w *world) runDims(c *core.Ctx, specs []spec, ents []*entry, lim *asLimiter
 			d.runResize(i, ds, r)
 		case "concurrent":
 			d.runConcurrent(i, ds, r)
+		case "amplify":
+			d.runAmp(i, d.amp[ds.a], r)
 		}
 		if k%97 == 0 {
 			c.Sample(map[string]any{"case": i, "family": ds.family})
@@ -224,7 +235,7 @@ func (d *dimRun) wantFloors() []string {
 	for _, n := range []int{8, 16, 64, 256, 1024} {
 		out = append(out, fmt.Sprintf("chunk/digest-count-of-exactly-%d-decoded", n))
 	}
-	return out
+	return append(out, ampFloors()...)
 }
 
 // guarded is one monitored call of the appended families: case record first, budget of the input
